@@ -151,7 +151,7 @@ EXTRA_DATA = b'abcd-extra-client-data'
 def second_effective(c: Dict[str, Any]) -> bool:
     """A keep-alive client sends its follow-up request only after the first response: that needs the first request to be
     forwarded and no plugin to swallow the response chunk."""
-    if not c.get('second'):
+    if not c.get('second') or c.get('connect'):
         return False
     beh = {int(k_): v for k_, v in c['behaviour'].items()}
     for i in c['order']:
@@ -188,7 +188,7 @@ def model(c: Dict[str, Any]) -> Dict[str, Any]:
             ip = beh[i].get('dns')
             if ip:
                 break
-        exp['connect'] = (ip or 'example.test', 80)
+        exp['connect'] = (ip or 'example.test', 443 if c.get('connect') else 80)
         for i in order:
             exp['hcr'].append((i, sorted(tags)))
             b = beh[i].get('hcr', 'pass')
@@ -223,7 +223,9 @@ def model(c: Dict[str, Any]) -> Dict[str, Any]:
         exp['forwarded_tags2'] = sorted(tags2) if outcome2 == 'forward' else None
     # response path
     exp['client'] = None
-    if outcome == 'forward':
+    if outcome == 'forward' and c.get('connect'):
+        exp['client'] = b'TUNNEL-ACK'      # the proxy's own 200; nothing is forwarded, the origin (silent here) sends nothing
+    elif outcome == 'forward':
         data: Optional[bytes] = RESPONSE
         for i in order:
             exp['huc'].append((i, data))
@@ -265,7 +267,10 @@ def run_case(c: Dict[str, Any]) -> Dict[str, Any]:
     flags = flags_for(tuple(c['order']), c['auth'], bool(c.get('pool')))
     w = K.World(flags, max_iters=20000)
     auth = b'Proxy-Authorization: Basic dXNlcjpwYXNz\r\n' if c['auth'] else b''
-    req = b'GET http://example.test/x HTTP/1.1\r\nHost: example.test\r\n' + auth + b'\r\n'
+    if c.get('connect'):
+        req = b'CONNECT example.test:443 HTTP/1.1\r\nHost: example.test:443\r\n' + auth + b'\r\n'
+    else:
+        req = b'GET http://example.test/x HTTP/1.1\r\nHost: example.test\r\n' + auth + b'\r\n'
     reqs = [(req, c['cuts'])]
     if second_effective(c):
         reqs.append((b'GET http://example.test/second HTTP/1.1\r\nHost: example.test\r\n' + auth + b'\r\n', []))
@@ -329,7 +334,7 @@ def evaluate(c: Dict[str, Any]) -> Tuple[List[Any], Dict[str, Any]]:
     nonpass = sum(1 for i in c['order'] for h, b in beh[i].items() if b not in ('pass', None))
     abort = c.get('abort_at') is not None
     feat = {'outcome': exp['outcome'], 'abort': abort, 'auth': c['auth'], 'ending': c['ending'] if not abort else 'abort',
-            'shutdown_raises': bool(c.get('shutdown_raises')), 'pool': bool(c.get('pool'))}
+            'shutdown_raises': bool(c.get('shutdown_raises')), 'pool': bool(c.get('pool')), 'connect': bool(c.get('connect'))}
     info = {'nonpass': nonpass, 'plugins': len(c['order']), 'abort': abort, 'outcome': exp['outcome']}
     out: List[Any] = []
 
@@ -365,8 +370,13 @@ def evaluate(c: Dict[str, Any]) -> Tuple[List[Any], Dict[str, Any]]:
                     out.append(('wrong-upstream-connection', feat, conns, [exp['connect']]))
             # (d) forwarded request
             fwd = bytes(r['origins'][0].inbuf) if r['origins'] else b''
-            if exp['forwarded_tags'] is None:
-                if fwd:
+            if c.get('connect') and exp['outcome'] == 'forward':
+                if fwd not in (b'', EXTRA_DATA):      # (the harness' client sends EXTRA_DATA through the tunnel at quiescence)
+                    out.append(('bytes-sent-into-a-fresh-tunnel', feat, fwd[:120], b''))
+            elif exp['forwarded_tags'] is None:
+                # (CONNECT: the request itself is never forwarded; what the harness' client sends later, at quiescence, is not "that
+                # request" - whether a tunnel whose CONNECT a plugin dropped still carries bytes is not stated by the property)
+                if fwd and not (c.get('connect') and fwd == EXTRA_DATA):
                     out.append(('request-forwarded-despite-drop-or-reject', feat, fwd[:120], b''))
             else:
                 p = H.parse_requests(fwd)
@@ -398,6 +408,9 @@ def evaluate(c: Dict[str, Any]) -> Tuple[List[Any], Dict[str, Any]]:
                     out.append(('rejection-response-differs', feat, got[:200], rej))
                 if r['client'].eof_iter is None:
                     out.append(('connection-open-after-rejection', feat, None, 'EOF'))
+            elif exp['outcome'] == 'forward' and c.get('connect'):
+                if not (got.startswith(b'HTTP/1.1 200') and got.endswith(b'\r\n\r\n') and got.count(b'\r\n\r\n') == 1):
+                    out.append(('tunnel-acknowledgement-differs', feat, got[:160], 'HTTP/1.1 200 ... CRLF CRLF and nothing else'))
             elif exp['outcome'] == 'forward':
                 n_resp = 2 if exp['outcome2'] == 'forward' else 1
                 if calls('huc') != exp['huc'] * n_resp and all(x == RESPONSE for i_, x in calls('huc') if i_ == c['order'][0]):
@@ -458,6 +471,7 @@ def cases(draw: Any) -> Dict[str, Any]:
          'abort_at': draw(st.integers(1, 25)) if abort else None,
          'shutdown_raises': draw(st.integers(0, 3)) == 0,
          'pool': draw(st.integers(0, 3)) == 0,
+         'connect': draw(st.integers(0, 3)) == 0,
          'second': True if followup_focus else draw(st.booleans()),
          'schedule': draw(st.lists(st.integers(0, 2), max_size=25))}
     return c
@@ -472,7 +486,7 @@ def run_shard(spec: Dict[str, Any], seed: int, acc: Any) -> None:
     def chk(c: Dict[str, Any]) -> List[Any]:
         vs, info = evaluate(c)
         labs = ['outcome:' + info['outcome'], 'plugins:%d' % info['plugins'], 'ending:' + ('abort' if info['abort'] else c['ending']),
-                'requests:%d' % (2 if second_effective(c) else 1)] + (['own-shutdown-raises'] if c.get('shutdown_raises') else []) + (['conn-pool'] if c.get('pool') else [])
+                'requests:%d' % (2 if second_effective(c) else 1)] + (['own-shutdown-raises'] if c.get('shutdown_raises') else []) + (['conn-pool'] if c.get('pool') else []) + (['method:CONNECT'] if c.get('connect') else [])
         if info.get('inconclusive') or info.get('dontcare'):
             acc.dontcare += 1
         acc.case(c, (info['plugins'] >= 2 and info['nonpass'] >= 1) or info['abort'], labels=labs)
